@@ -85,6 +85,32 @@ type IDEvent struct {
 	Op    string
 }
 
+// OpInfo describes the last operation issued by Step (for crash / concurrency attribution).
+type OpInfo struct {
+	Kind    string // dag | kv | lm | ann | nj | roi | img
+	Version string // uuid the request was addressed to ("" for repo-level merge)
+	Desc    string
+}
+
+// Group returns the instance names whose state an operation of this kind can change (sync chains included).
+func (o OpInfo) Group() []string {
+	switch o.Kind {
+	case "lm":
+		return []string{"lm", "syn", "lsz"}
+	case "ann":
+		return []string{"syn", "lsz"}
+	case "kv":
+		return []string{"kv"}
+	case "nj":
+		return []string{"nj"}
+	case "roi":
+		return []string{"roi"}
+	case "img":
+		return []string{"img"}
+	}
+	return nil
+}
+
 type Opts struct {
 	Types      []string // subset of: kv lm ann nj roi img ; empty = all
 	MaxDownres int
@@ -104,15 +130,18 @@ type World struct {
 	IDs   []IDEvent
 	Seq   int
 	// union of hints over all versions (snapshots read these everywhere)
-	allLabels map[uint64]bool
-	allPts    map[[3]int]bool
-	allNJ     map[uint64]bool
-	allKV     map[string]bool
-	nextNJ    uint64
-	valSeq    int
-	Panics    []string // recovered-panic responses seen on well-formed requests (C20)
-	FiveXX    []string
-	LabelBase uint64
+	allLabels  map[uint64]bool
+	allPts     map[[3]int]bool
+	allNJ      map[uint64]bool
+	allKV      map[string]bool
+	nextNJ     uint64
+	valSeq     int
+	Normalize  bool // snapshots are normalised for comparison across runs (uuids -> version ids, times masked)
+	NeedSettle bool // set by the last Step when it touched a type with background processing
+	LastOp     OpInfo
+	Panics     []string // recovered-panic responses seen on well-formed requests (C20)
+	FiveXX     []string
+	LabelBase  uint64
 }
 
 const volN = 64 // labelmap volume is volN^3 voxels at offset 0 (2x2x2 blocks of 32^3)
@@ -280,54 +309,100 @@ func (wd *World) Step() (string, error) {
 	x := wd.R.Intn(100)
 	var desc string
 	var err error
+	var u string
+	if len(open) > 0 {
+		u = open[wd.R.Intn(len(open))]
+	}
+	kind := "dag"
 	switch {
-	case x < 14 || len(open) == 0:
+	case x < 18 || len(open) == 0:
+		u = ""
 		desc, err = wd.dagStep()
-	case x < 24 && wd.on("kv"):
-		desc, err = wd.kvStep(open[wd.R.Intn(len(open))])
-	case x < 52 && wd.on("lm"):
-		desc, err = wd.lmStep(open[wd.R.Intn(len(open))])
+	case x < 27 && wd.on("kv"):
+		kind = "kv"
+		desc, err = wd.kvStep(u)
+	case x < 53 && wd.on("lm"):
+		kind = "lm"
+		desc, err = wd.lmStep(u)
 	case x < 70 && wd.on("ann"):
-		desc, err = wd.annStep(open[wd.R.Intn(len(open))])
+		kind = "ann"
+		desc, err = wd.annStep(u)
 	case x < 82 && wd.on("nj"):
-		desc, err = wd.njStep(open[wd.R.Intn(len(open))])
+		kind = "nj"
+		desc, err = wd.njStep(u)
 	case x < 90 && wd.on("roi"):
-		desc, err = wd.roiStep(open[wd.R.Intn(len(open))])
+		kind = "roi"
+		desc, err = wd.roiStep(u)
 	case wd.on("img"):
-		desc, err = wd.imgStep(open[wd.R.Intn(len(open))])
+		kind = "img"
+		desc, err = wd.imgStep(u)
 	default:
+		u = ""
 		desc, err = wd.dagStep()
 	}
+	if strings.HasPrefix(desc, "kv") {
+		kind = "kv" // steps on merge nodes fall back to a keyvalue write
+	}
+	wd.LastOp = OpInfo{Kind: kind, Version: u, Desc: desc}
 	if err != nil {
 		return desc, err
 	}
-	if err := wd.W.Settle(); err != nil {
-		return desc, fmt.Errorf("settle after %s: %w", desc, err)
+	// only labelmap / annotation / labelsz have background processing (indexing, syncs)
+	if strings.HasPrefix(desc, "lm") || strings.HasPrefix(desc, "ann") {
+		if err := wd.W.Settle(); err != nil {
+			return desc, fmt.Errorf("settle after %s: %w", desc, err)
+		}
 	}
 	return desc, nil
 }
 
+// dagStep issues exactly ONE repo-level request (commit | newversion | branch | merge).
 func (wd *World) dagStep() (string, error) {
 	before := len(wd.H.D.Order)
 	n0 := len(wd.H.Ops)
 	wd.Seq++
-	if wd.R.Intn(3) == 0 || len(wd.open()) == 0 {
-		// make sure histories keep a mutable head: commit + newversion on master when possible
-		for _, u := range wd.open() {
-			if wd.St[u] != nil && !wd.St[u].noData {
-				if err := wd.H.CommitNode(u); err != nil {
-					return "commit", err
-				}
-				if _, err := wd.H.NewVersionOf(u); err != nil {
-					if dvc.IsWorkerErr(err) {
-						return "newversion", err
-					}
-				}
-				break
-			}
+	open := wd.open()
+	var dataOpen []string
+	for _, u := range open {
+		if wd.St[u] != nil && !wd.St[u].noData {
+			dataOpen = append(dataOpen, u)
 		}
 	}
-	if _, err := wd.H.StepDAG(); err != nil {
+	var err error
+	switch {
+	case len(dataOpen) == 0:
+		// keep a mutable data version around: extend the newest committed non-merge node
+		var cand []string
+		for _, u := range wd.H.D.Committed() {
+			if wd.St[u] != nil && !wd.St[u].noData {
+				cand = append(cand, u)
+			}
+		}
+		done := false
+		for i := len(cand) - 1; i >= 0 && !done; i-- {
+			n := wd.H.D.Nodes[cand[i]]
+			free := true
+			for _, c := range n.Children {
+				if wd.H.D.Nodes[c].Branch == n.Branch {
+					free = false
+				}
+			}
+			if free {
+				_, err = wd.H.NewVersionOf(cand[i])
+				done = true
+			}
+		}
+		if !done && len(cand) > 0 {
+			_, err = wd.H.BranchOf(cand[len(cand)-1])
+		} else if !done {
+			_, err = wd.H.StepDAG()
+		}
+	case len(dataOpen) == 1 && wd.R.Intn(3) > 0:
+		err = wd.H.CommitNode(dataOpen[0])
+	default:
+		_, err = wd.H.StepDAG()
+	}
+	if err != nil {
 		if dvc.IsWorkerErr(err) {
 			return "dag", err
 		}
